@@ -68,6 +68,9 @@ func mkUserLeaf(r *R) error {
 	switch nin(r, 0) {
 	case 0:
 		e = &ULeafA{in(r, 0)}
+	case 2:
+		// a wrapper type used as a leaf (its cause is nil): "sometimes a leaf, sometimes a wrapper"
+		e = &UWrapC{in(r, 0), nil}
 	default:
 		safe = r.In[1:]
 		e = &ULeafSafe{in(r, 0), safe}
